@@ -8,6 +8,7 @@ from contracts.linearfam import linear_harnesses
 from contracts.movement import movement_harnesses
 from contracts.nets import nets_harnesses
 from contracts.composite import composite_harnesses
+from contracts.dtypes import rows_harnesses
 
 
 def transforms(props, tier, dtype=None):
@@ -28,4 +29,5 @@ def everything(props, tier):
     hs += autoreg_harnesses(tier, modes=("forward",))
     hs += linear_harnesses(tier, modes=("forward",))
     hs += nets_harnesses(tier)
+    hs += rows_harnesses(tier)
     return hs
